@@ -108,6 +108,11 @@ func TestVerif_C04_Reissue(t *testing.T) {
 				return nil, err
 			}
 		}
+		resp, err := v.Do(vReq{Op: logical.UpdateOperation, Path: "auth/token/create", Token: f.parent.ID, NS: ns, Data: map[string]any{"type": "batch", "policies": []string{"c04"}, "ttl": "30m"}})
+		if !vOK(resp, err) || resp == nil || resp.Auth == nil {
+			return nil, fmt.Errorf("batch child: %s", vErrStr(resp, err))
+		}
+		c04BatchChild[f.parent.ID] = resp.Auth.ClientToken
 		return f, nil
 	}
 	for _, tx := range []bool{false, true} {
@@ -204,6 +209,14 @@ func c04ReissueCase(t *testing.T, r *kit.Result, tx bool, ns, flowName string, r
 		return
 	}
 	usable := v.TokenUsable(f.parent.ID, ns)
+	// a batch token made by the revoked token lives only through its parent
+	if bt, _, berr := batchOf(v, f, ns); berr == nil && bt != "" {
+		r.Count("batch_child_checks", 1)
+		if reported && v.TokenUsable(bt, ns) {
+			r.Violate("C04-dead-token-usable", caseID, fmt.Sprintf("[%s] batch token created by %s is accepted by lookup-self after the revocation of its parent was reported successful (queued part interrupted at %s %s; parent record present: %v)", caseID, f.parent.Name, faulted.Op, c04KeyClass(faulted.Key), present), steps)
+			return
+		}
+	}
 	if reported && usable {
 		r.Violate("C04-dead-token-usable", caseID, fmt.Sprintf("[%s] token %s is accepted by lookup-self after its revocation was reported successful (queued part interrupted at %s %s)", caseID, f.parent.Name, faulted.Op, c04KeyClass(faulted.Key)), steps)
 		return
@@ -263,6 +276,13 @@ func c04ReissueCase(t *testing.T, r *kit.Result, tx bool, ns, flowName string, r
 		return
 	}
 	r.Count("reissue_refused_while_earlier_holder_remains", 1)
+}
+
+var c04BatchChild = map[string]string{}
+
+func batchOf(v *vCore, f *c04Fixture, ns string) (string, bool, error) {
+	bt, ok := c04BatchChild[f.parent.ID]
+	return bt, ok, nil
 }
 
 // idSuffixOf returns the ".<namespace id>" suffix child-namespace token ids carry.
